@@ -53,7 +53,7 @@ PATTERNS = [
     "( x ?O x ) ?O x ?O x", "x ?O ( x ?O x ) ?O x", "x ?O x ?O ( x ?O x )", "( x ?O x ?O x ) ?O x", "x ?O ( x ?O x ?O x )",
     "( ( x ?O x ) ?O x ) ?O x", "x ?O ( x ?O ( x ?O x ) )", "( x ?O x ) ?O ( x ?O x )", "( x ?O ( x ?O x ) ) ?O x", "x ?O ( ( x ?O x ) ?O x )",
     # conditional operator with binary/assignment/comma neighbours
-    "x ?O x ? x ?O x : x ?O x", "x ? x : x ? x : x", "x ? x ? x : x : x", "x ?A x ? x , x : x ?A x", "( x ?C x ) ?C x ?C ( x ?C x )",
+    "x ?O x ? x ?O x : x ?O x", "x ? x : x ? x : x", "x ? x ? x : x : x", "x ?A x ? x , x : x", "x ? x , x : x ?B x", "x ?B x ? x ?A x , x ?A x : x ?B x", "( x ?C x ) ?C x ?C ( x ?C x )",
     # prefix / postfix / cast / sizeof binding
     "?U x ?O ?U x", "?U ?U x ?P ?P", "?U x [ x ] ?P ?O x", "?U x ?M x ?P ?O x", "( T ) ?U x ?O x", "?U ( T ) x ?P", "sizeof ( T ) ?O x", "sizeof ?U x ?O x",
     "sizeof ( x ) ?O x", "?U ( T ) { x } ?P ?O x", "( T ) ( T ) x ?O x", "?U x ( x ?O x , x ?O x ) ?P", "x ( ( x ?C x ) , x ) ?O x", "_Alignof ( T ) ?O ?U x",
